@@ -8,7 +8,8 @@ struct Case
 {
     uint8_t cls{0};
     uint8_t path{0};       // 0 class validator + constructor, 1 message buffer -> Packet constructor, 2 frame -> Decoder,
-                           // 3 the payload travels as a TECMP message: Decoder::decode converts it, the returned packets are swept
+                           // 3 the payload travels as a TECMP message: Decoder::decode converts it, the returned packets are swept,
+                           // 4 the payload travels in two segments and is reassembled by the Decoder
     uint8_t bg{0};         // background 0 zeros, 1 ones, 2 pseudo-random(seed), 3 pseudo-random without any zero byte
     uint8_t normalize{1};  // clear the header bits that make the class's validator reject outright (error flags, status > 2, ...)
     uint32_t seed{0};
@@ -320,6 +321,35 @@ static Verdict runCase(const Case& c, Info& info)
                 free(heap);
             info.tag("path_packet_constructor");
         }
+        else if (c.path == 4)
+        {
+            // the payload travels in two segments (cut at a position derived from the seed): what the decoder reassembles and
+            // hands out as a valid typed packet must pass the same accessor sweep
+            size_t cut = payload.empty() ? 0 : mix(c.seed, 91) % (payload.size() + 1);
+            lib::Decoder dec;
+            std::vector<std::shared_ptr<lib::Packet>> got;
+            for (int part = 0; part < 2; ++part)
+            {
+                Bytes chunk(payload.begin() + static_cast<long>(part == 0 ? 0 : cut), payload.begin() + static_cast<long>(part == 0 ? cut : payload.size()));
+                wire::MsgHdr sh = mh;
+                sh.flags = static_cast<uint8_t>((mh.flags & ~wire::kFlagSegMask) | ((part == 0 ? wire::kSegFirst : wire::kSegLast) << 2));
+                sh.length = static_cast<uint16_t>(chunk.size());
+                Bytes frame;
+                wire::CmpHdr h{1, 0, 7, classMsgType(c.cls), 3, static_cast<uint16_t>(65535 + part)};
+                wire::putCmpHdr(frame, h);
+                wire::putBytes(frame, wire::buildMessage(sh, chunk));
+                auto out = decodeOwned(dec, frame);
+                got.insert(got.end(), out.begin(), out.end());
+            }
+            for (const auto& p : got)
+            {
+                VF_CHECK(p != nullptr, "null packet");
+                bool typed = false;
+                VF_TRY(sweepPacket(*p, vs, &typed));
+                accepted = accepted || typed;
+            }
+            info.tag("path_decoder_reassembled");
+        }
         else
         {
             Bytes frame;
@@ -375,7 +405,7 @@ static void enumerate(int tier, const std::function<bool(const Case&)>& emit)
                 sizes.push_back(s);
         for (size_t size : sizes)
             for (uint8_t bg = 0; bg < 3; ++bg)
-                for (uint8_t path = 0; path < 3; ++path)
+                for (uint8_t path : {uint8_t(0), uint8_t(1), uint8_t(2), uint8_t(4)})
                 {
                     Case base;
                     base.cls = cls;
@@ -556,7 +586,7 @@ static rc::Gen<Case> genCase(int tier)
     return rc::gen::exec([tier]() {
         Case c;
         c.cls = *range<uint8_t>(0, pcCount - 1);
-        c.path = *rc::gen::weightedElement<uint8_t>({{3, 0}, {1, 1}, {2, 2}, {1, 3}});
+        c.path = *rc::gen::weightedElement<uint8_t>({{3, 0}, {1, 1}, {2, 2}, {1, 3}, {2, 4}});
         c.bg = *rc::gen::weightedElement<uint8_t>({{1, 0}, {1, 1}, {4, 2}, {2, 3}});
         c.normalize = *rc::gen::weightedElement<uint8_t>({{5, 1}, {1, 0}});
         c.seed = *rc::gen::arbitrary<uint32_t>();
@@ -617,6 +647,6 @@ int main(int argc, char** argv)
     prop.enumerationNote = "per typed class: every size 0..header+8 (thorough ..header+40) and header+{16,64,255,256}; every value 0..rest+2 and "
                            "{0x7F,0x80,0xFF,0x100,0xFFFE,0xFFFF} of the inner length field; CM: all combinations of the five prefixes over "
                            "{0,1,2,3,fits,fits+1,0xFFFF}, and payloads without any zero byte behind string k; IF: stream-id count x vendor length; backgrounds zero / ones / pseudo-random; paths "
-                           "class validator / Packet constructor / Decoder / TECMP conversion (every CAN, CAN-FD, LIN data length 0..255)";
+                           "class validator / Packet constructor / Decoder / Decoder after reassembly from two segments / TECMP conversion (every CAN, CAN-FD, LIN data length 0..255)";
     return pbtMain(argc, argv, prop);
 }
